@@ -85,7 +85,7 @@ Proof.
     { rewrite map_app. cbn. apply nodup_snoc; [exact H|]. apply find_none_notin; exact F. }
     destruct (registers m).
     + destruct (m_plus m && m_r m); [|exact Hn].
-      destruct (get (user s) p); exact Hn.
+      destruct (get (user s) p); [exact Hn|exact H].
     + destruct (m_r m); exact H.
 Qed.
 
